@@ -70,7 +70,7 @@ fn mn_strategy_medium(_t: Tier) -> BoxedStrategy<MnCase> {
 fn mn_strategy_dims(maxr: usize, maxc: usize) -> BoxedStrategy<MnCase> {
     (
         // slack 3 stands for -1: a maximum row weight below what the column weights need (must fail, or at least never exceed wr)
-        (prop_oneof![1 => Just(1usize), 20 => 2..=maxr], prop_oneof![1 => Just(1usize), 20 => 2..=maxc], prop_oneof![1 => Just(0usize), 30 => 1usize..=4], prop_oneof![12 => Just(0usize), 4 => Just(1usize), 4 => Just(2usize), 2 => Just(3usize), 1 => Just(4usize), 1 => Just(5usize)], any::<bool>()),
+        (prop_oneof![1 => Just(1usize), 20 => 2..=maxr], prop_oneof![1 => Just(1usize), 20 => 2..=maxc], prop_oneof![1 => Just(0usize), 30 => 1usize..=4], prop_oneof![12 => Just(0usize), 4 => Just(1usize), 4 => Just(2usize), 2 => Just(3usize), 1 => Just(4usize), 1 => Just(5usize), 1 => Just(6usize)], any::<bool>()),
         (prop_oneof![4 => Just(None), 1 => Just(Some(4usize)), 4 => Just(Some(6usize)), 2 => Just(Some(8usize)), 3 => (1usize..=11).prop_map(Some), 1 => prop_oneof![Just(Some(usize::MAX)), Just(Some(1usize << 40)), Just(Some(isize::MAX as usize + 1))]], prop_oneof![2 => 0usize..=6, 1 => 7usize..=30], 0usize..=3, prop_oneof![2 => Just(0usize), 1 => 1usize..=5]),
         (any::<u64>(), prop_oneof![any::<u64>(), 0u64..1000, (u64::MAX - 200)..(u64::MAX - 70)], 1u64..=64, prop_oneof![Just(1usize), Just(2), Just(4), Just(16)]),
     )
@@ -81,6 +81,8 @@ fn mn_strategy_dims(maxr: usize, maxc: usize) -> BoxedStrategy<MnCase> {
                 3 => ((ncols * wc).div_ceil(nrows)).saturating_sub(1).max(1),
                 4 => usize::MAX,
                 5 => 1usize << 62,
+                // a maximum row weight of 0: no row may hold a one (only the all-zero matrix, for wc = 0, is possible)
+                6 => 0,
                 _ => (ncols * wc).div_ceil(nrows) + slack,
             };
             let search_start = search_start.min(u64::MAX - 100);
@@ -269,17 +271,51 @@ fn check_peg(case: &PegCase, p: &mut Probe) -> Check {
     Ok(())
 }
 
+/// thousands of rows (no generated configuration has more than 1100): the uniform policy on
+/// 2053 x 1200 (a prime number of rows) and 4100 x 900 with column weight 3, run under rayon pools of
+/// 1, 3 and 4 threads: sizes, weights, row balance, and the same matrix whatever the pool
+fn mn_many_rows_cases(_t: Tier) -> Vec<u8> {
+    vec![0, 1]
+}
+
+fn check_mn_many_rows(which: &u8, p: &mut Probe) -> Check {
+    let (nrows, ncols) = if *which == 0 { (2053usize, 1200usize) } else { (4100, 900) };
+    let case = MnCase { nrows, ncols, wr: (ncols * 3).div_ceil(nrows) + usize::from(*which), wc: 3, backtrack_cols: 0, backtrack_trials: 0, min_girth: None, girth_trials: 0, uniform: true, seed: 11 + *which as u64, search_start: 0, search_tries: 1, threads: 1 };
+    let conf = case.config();
+    let mut first: Option<SparseMatrix> = None;
+    for threads in [1usize, 4, 3] {
+        let pool = rayon::ThreadPoolBuilder::new().num_threads(threads).build().map_err(|e| Fail::new("harness", format!("cannot build rayon pool: {e}")))?;
+        let r = guarded(|| pool.install(|| conf.run(case.seed))).map_err(|e| Fail::new("panic", format!("{nrows} x {ncols}, uniform policy, pool of {threads} threads: run panicked: {e}")))?;
+        let h = r.map_err(|e| Fail::new("mn-failed", format!("{nrows} x {ncols}, wc 3, wr {}, uniform policy, pool of {threads} threads: run({}) failed ({e}) although the row weights leave room", case.wr, case.seed)))?;
+        mn_validate(&case, &h, &format!("{nrows} x {ncols} under a pool of {threads} threads"))?;
+        match &first {
+            None => first = Some(h),
+            Some(f) => ensure!(*f == h, "mn-determinism", "{nrows} x {ncols}, uniform policy, seed {}: the matrix built under a pool of {threads} threads differs from the one built under a pool of 1 thread", case.seed),
+        }
+        p.inner += 1;
+    }
+    p.nontrivial();
+    Ok(())
+}
+
 pub fn property() -> Property {
     Property {
         id: "C16",
         subs: vec![
             Box::new(Sub {
                 name: "mackay-neal",
-                rule: "configurations rows 1..=12, cols 1..=24 (thorough 20 x 48; a single row / column in 5 % of the cases each), wc 0..=min(4, rows) (0 in 3 %), wr = ceil(cols*wc/rows) + {0,1,2} (occasionally one less than feasible, or 'no limit' given as usize::MAX or 2^62), both fill policies (one case in 400: 2-3 rows and more than 131 000 columns of weight one under the uniform policy, row weights beyond 2^16), min girth {none, 4, 6, 8, any of 1..=11 incl. odd values, 2^40, 2^63 or usize::MAX = no cycle at all} with 0..=30 girth trials, backtracking 0..=3 columns x 0..=5 trials, any u64 seed; on success: size, every column weight = wc, every row weight <= wr, own girth >= min girth, uniform policy without girth constraint: row weights differ by <= 1; same (config, seed) twice (second run on another thread) identical; seeds s..s+3 validated too and, when all succeed in a roomy configuration, not all identical; search(start, tries<=64) under rayon pools of 1/2/4/16 threads (start also near u64::MAX - tries): Some((s,h)) has start <= s < start+tries and h == run(s), None only if the sequential oracle finds every seed failing. Non-trivial = success where a neighbouring seed fails with backtracking/girth retries configured, or a search range with mixed outcomes",
+                rule: "configurations rows 1..=12, cols 1..=24 (thorough 20 x 48; a single row / column in 5 % of the cases each), wc 0..=min(4, rows) (0 in 3 %), wr = ceil(cols*wc/rows) + {0,1,2} (occasionally one less than feasible, 0, or 'no limit' given as usize::MAX or 2^62), both fill policies (one case in 400: 2-3 rows and more than 131 000 columns of weight one under the uniform policy, row weights beyond 2^16), min girth {none, 4, 6, 8, any of 1..=11 incl. odd values, 2^40, 2^63 or usize::MAX = no cycle at all} with 0..=30 girth trials, backtracking 0..=3 columns x 0..=5 trials, any u64 seed; on success: size, every column weight = wc, every row weight <= wr, own girth >= min girth, uniform policy without girth constraint: row weights differ by <= 1; same (config, seed) twice (second run on another thread) identical; seeds s..s+3 validated too and, when all succeed in a roomy configuration, not all identical; search(start, tries<=64) under rayon pools of 1/2/4/16 threads (start also near u64::MAX - tries): Some((s,h)) has start <= s < start+tries and h == run(s), None only if the sequential oracle finds every seed failing. Non-trivial = success where a neighbouring seed fails with backtracking/girth retries configured, or a search range with mixed outcomes",
                 cases: |t| t.pick(12_000, 400_000),
                 strategy: mn_strategy,
                 check: check_mn,
-                health: &[("run-succeeded", 0.30), ("search-range-mixed", 0.07), ("backtracking-or-girth-retry-mattered", 0.015)],
+                health: &[("run-succeeded", 0.30), ("search-range-mixed", 0.06), ("backtracking-or-girth-retry-mattered", 0.015)],
+            }),
+            Box::new(EnumSub {
+                name: "mackay-neal-many-rows",
+                rule: "uniform policy, column weight 3, 2053 x 1200 and 4100 x 900, under rayon pools of 1, 4 and 3 threads: size, column weights, row weights within the maximum and differing by at most one, and the same matrix for the same seed whatever the pool",
+                cases: mn_many_rows_cases,
+                check: check_mn_many_rows,
+                exhaustive: false,
             }),
             Box::new(Sub {
                 name: "mackay-neal-medium",
